@@ -1,14 +1,1156 @@
-// Package c10 is the correspondence area of property C10 (stub: the slice is not built yet).
+// Package c10 is the correspondence area of property C10: gRPC outcomes map to the right HTTP
+// status and a decodable error body.
+//
+// Three kinds of case lines (see lean/GB/C10/Driver.lean for the judge):
+//
+//	tbl <code>                  => <http>                    real grpc-gateway runtime.HTTPStatusFromCode ("extracted by execution")
+//	cvt <rawerr>                => <code> <msg> <det> <http> real webbridge.errorStatus on a constructed error value
+//	e2e rpc=… inj=… err=… …     => st=… ct=… …               one HTTP request through the REAL TranscodedHTTPBridge.ServeHTTP
+//
+// The e2e scenario runs the real bridge (real StandardTranscoder.Bind and bound transcoders, real
+// ProxyForwarder, real JSONMarshaler) behind httptest with a fake router and a scripted target
+// ClientConn. Errors are injected at the six origins of the property (router, bind, request decode,
+// stream creation, target status, deadline) or arise naturally (unsupported Content-Type, SSE on a
+// unary method, malformed body, bad response_body path, target EOF without response).
+// The output carries the observable HTTP response plus "post-library inputs" the model cannot compute
+// (mime.ParseMediaType results, the bytes / error text the bound response transcoder produced, the
+// message of errors whose text is made inside grpcbridge or a library).
 package c10
 
 import (
+	"context"
+	"encoding/json"
+	"errors"
+	"fmt"
+	"io"
 	"math/rand"
+	"mime"
+	"net/http"
+	"net/http/httptest"
+	"sort"
+	"strconv"
+	"strings"
+	"sync"
+	"unicode/utf8"
+
+	gwruntime "github.com/grpc-ecosystem/grpc-gateway/v2/runtime"
+	"github.com/renbou/grpcbridge/bridgedesc"
+	"github.com/renbou/grpcbridge/grpcadapter"
+	"github.com/renbou/grpcbridge/routing"
+	"github.com/renbou/grpcbridge/transcoding"
+	"github.com/renbou/grpcbridge/verifx"
+	"github.com/renbou/grpcbridge/webbridge"
+	"google.golang.org/genproto/googleapis/rpc/errdetails"
+	spb "google.golang.org/genproto/googleapis/rpc/status"
+	"google.golang.org/grpc/codes"
+	"google.golang.org/grpc/metadata"
+	"google.golang.org/grpc/status"
+	"google.golang.org/protobuf/encoding/protojson"
+	"google.golang.org/protobuf/proto"
+	"google.golang.org/protobuf/reflect/protoreflect"
+	"google.golang.org/protobuf/reflect/protoregistry"
+	"google.golang.org/protobuf/types/known/anypb"
+	"google.golang.org/protobuf/types/known/durationpb"
+	"verif/harness/common"
 )
 
 type Area struct{}
 
 func (Area) Name() string { return "c10" }
 
-func (Area) Exec(input string) string { return "UNIMPLEMENTED" }
+// ---------------------------------------------------------------------------------------------
+// detail payloads: one fixed google.protobuf.Any per letter
 
-func (Area) Gen(r *rand.Rand, tier string, emit func(string)) {}
+const (
+	mimeJSON = "application/json"
+	mimePB   = "application/x-test-pb"
+)
+
+var (
+	detailLetters = "rqumeb"
+	detailAny     = map[byte]*anypb.Any{}
+	targetTypes   = new(protoregistry.Types) // the TARGET's resolver: knows ErrorInfo and ResourceInfo only
+)
+
+func mustAny(m proto.Message) *anypb.Any {
+	b, err := proto.MarshalOptions{Deterministic: true}.Marshal(m)
+	if err != nil {
+		panic(err)
+	}
+	return &anypb.Any{TypeUrl: "type.googleapis.com/" + string(m.ProtoReflect().Descriptor().FullName()), Value: b}
+}
+
+func init() {
+	detailAny['r'] = mustAny(&errdetails.ErrorInfo{Reason: "R", Domain: "d.example"})                     // resolvable
+	detailAny['q'] = mustAny(&errdetails.ResourceInfo{ResourceType: "t", ResourceName: "n", Owner: "o"})  // resolvable
+	detailAny['u'] = mustAny(&errdetails.RetryInfo{RetryDelay: durationpb.New(3_000_000_000)})            // type unknown to the target
+	detailAny['m'] = &anypb.Any{TypeUrl: detailAny['r'].TypeUrl, Value: []byte{0xff, 0xff, 0xff}}         // known type, malformed value
+	detailAny['e'] = &anypb.Any{TypeUrl: "", Value: []byte{1}}                                            // value without a type URL
+	detailAny['b'] = &anypb.Any{TypeUrl: "garbage", Value: nil}                                           // type URL that names nothing
+	if err := targetTypes.RegisterMessage((&errdetails.ErrorInfo{}).ProtoReflect().Type()); err != nil {
+		panic(err)
+	}
+	if err := targetTypes.RegisterMessage((&errdetails.ResourceInfo{}).ProtoReflect().Type()); err != nil {
+		panic(err)
+	}
+}
+
+func detailsOf(letters string) []*anypb.Any {
+	var out []*anypb.Any
+	for i := 0; i < len(letters); i++ {
+		a, ok := detailAny[letters[i]]
+		if !ok {
+			panic("bad detail letter " + letters)
+		}
+		out = append(out, proto.Clone(a).(*anypb.Any))
+	}
+	return out
+}
+
+func lettersOf(ds []*anypb.Any) string {
+	if len(ds) == 0 {
+		return "-"
+	}
+	var sb strings.Builder
+	for _, d := range ds {
+		l := byte('?')
+		for i := 0; i < len(detailLetters); i++ {
+			if proto.Equal(d, detailAny[detailLetters[i]]) {
+				l = detailLetters[i]
+				break
+			}
+		}
+		sb.WriteByte(l)
+	}
+	return sb.String()
+}
+
+func dashLetters(s string) string {
+	if s == "-" {
+		return ""
+	}
+	return s
+}
+
+// ---------------------------------------------------------------------------------------------
+// error values:  <wrapper>/<wrapper>/…/<base>
+//   base     S:<code>:<msg>:<letters>      error implementing GRPCStatus() (status.Status.Err(); custom type for code 0)
+//            P:<msg>                       errors.New(msg)
+//            B<http>:<code>:<msg>:<letters> error implementing GRPCStatus() and HTTPStatus() itself
+//   wrapper  H<http>                       httperr.Status(http, inner)   (grpcbridge's own HTTPStatus() carrier)
+//            W<prefix>                     fmt.Errorf("%s: %w", prefix, inner)
+
+type directStatusErr struct{ st *status.Status }
+
+func (e *directStatusErr) Error() string {
+	return fmt.Sprintf("rpc error: code = %s desc = %s", e.st.Code(), e.st.Message())
+}
+func (e *directStatusErr) GRPCStatus() *status.Status { return e.st }
+
+type bothErr struct {
+	directStatusErr
+	http int
+}
+
+func (e *bothErr) HTTPStatus() int { return e.http }
+
+func buildStatus(code int, msg string, letters string) *status.Status {
+	return status.FromProto(&spb.Status{Code: int32(code), Message: msg, Details: detailsOf(dashLetters(letters))})
+}
+
+func parseErr(spec string) error {
+	parts := strings.Split(spec, "/")
+	base := parts[len(parts)-1]
+	var err error
+	f := strings.Split(base, ":")
+	switch {
+	case base[0] == 'S' && len(f) == 4:
+		code, _ := strconv.Atoi(f[1])
+		st := buildStatus(code, string(common.MustUnHex(f[2])), f[3])
+		if code == 0 {
+			err = &directStatusErr{st}
+		} else {
+			err = st.Err()
+		}
+	case base[0] == 'P' && len(f) == 2:
+		err = errors.New(string(common.MustUnHex(f[1])))
+	case base[0] == 'B' && len(f) == 4:
+		h, _ := strconv.Atoi(f[0][1:])
+		code, _ := strconv.Atoi(f[1])
+		err = &bothErr{directStatusErr{buildStatus(code, string(common.MustUnHex(f[2])), f[3])}, h}
+	default:
+		panic("bad error spec " + spec)
+	}
+	for i := len(parts) - 2; i >= 0; i-- {
+		w := parts[i]
+		switch w[0] {
+		case 'H':
+			h, _ := strconv.Atoi(w[1:])
+			err = verifx.HTTPStatusError(h, err)
+		case 'W':
+			err = fmt.Errorf("%s: %w", string(common.MustUnHex(w[1:])), err)
+		default:
+			panic("bad error wrapper " + spec)
+		}
+	}
+	return err
+}
+
+// ---------------------------------------------------------------------------------------------
+// scenario
+
+type scenario struct {
+	rpc   string // u unary | s server-streaming | c client-streaming
+	srv   bool   // upper-case rpc letter: through a real net/http server on loopback instead of a ResponseRecorder
+	inj   string // none router bind decode create target deadline
+	err   error
+	gone  bool     // the client's request context is cancelled right before the injected error is produced
+	ct    []string // Content-Type header lines (nil = absent)
+	acc   []string // Accept header lines
+	body  []byte
+	rbp   string // response_body path
+	tmo   string // grpc-timeout header ("-" = none)
+	n     int    // number of response messages the target sends before its final status
+	ra    string // response ResourceInfo.resource_name
+	rb    string // response ResourceInfo.owner
+	hdr   [][2]string
+	trl   [][2]string
+	allH  []string
+	allT  []string
+	prefH string
+	prefT string
+}
+
+func kv(tok, key string) string {
+	if !strings.HasPrefix(tok, key+"=") {
+		panic("expected " + key + "= in " + tok)
+	}
+	return tok[len(key)+1:]
+}
+
+func hexList(s string) []string {
+	if s == "-" {
+		return nil
+	}
+	var out []string
+	for _, p := range strings.Split(s, ",") {
+		out = append(out, string(common.MustUnHex(p)))
+	}
+	return out
+}
+
+func hexPairs(s string) [][2]string {
+	if s == "-" {
+		return nil
+	}
+	var out [][2]string
+	for _, p := range strings.Split(s, ",") {
+		kvp := strings.Split(p, ":")
+		out = append(out, [2]string{string(common.MustUnHex(kvp[0])), string(common.MustUnHex(kvp[1]))})
+	}
+	return out
+}
+
+func parseScenario(f []string) *scenario {
+	if len(f) != 13 {
+		panic(fmt.Sprintf("e2e line needs 13 fields, got %d", len(f)))
+	}
+	sc := &scenario{}
+	sc.rpc = kv(f[1], "rpc")
+	if sc.rpc == "U" || sc.rpc == "S" || sc.rpc == "C" {
+		sc.srv = true
+		sc.rpc = strings.ToLower(sc.rpc)
+	}
+	sc.inj = kv(f[2], "inj")
+	if e := kv(f[3], "err"); e != "-" {
+		sc.err = parseErr(e)
+	}
+	sc.gone = kv(f[4], "gone") == "1"
+	sc.ct = hexList(kv(f[5], "ct"))
+	sc.acc = hexList(kv(f[6], "acc"))
+	sc.body = common.MustUnHex(kv(f[7], "body"))
+	sc.rbp = string(common.MustUnHex(kv(f[8], "rbp")))
+	sc.tmo = kv(f[9], "tmo")
+	sc.n, _ = strconv.Atoi(kv(f[10], "n"))
+	resp := strings.Split(kv(f[11], "resp"), "/")
+	sc.ra, sc.rb = string(common.MustUnHex(resp[0])), string(common.MustUnHex(resp[1]))
+	md := strings.Split(kv(f[12], "md"), "/")
+	if len(md) != 6 {
+		panic("md needs 6 parts")
+	}
+	sc.hdr, sc.trl = hexPairs(md[0]), hexPairs(md[1])
+	sc.allH, sc.allT = hexList(md[2]), hexList(md[3])
+	sc.prefH, sc.prefT = string(common.MustUnHex(md[4])), string(common.MustUnHex(md[5]))
+	return sc
+}
+
+// ---------------------------------------------------------------------------------------------
+// recording of what happened inside (post-library inputs of the model)
+
+type record struct {
+	mu       sync.Mutex
+	finalErr error    // the error value handed to writeError (router / Bind / Forward), if any
+	natural  error    // error the REAL request transcoder returned for the body (before requestTranscodingError)
+	trans    []string // one entry per Transcode call on the bound response transcoder: S|M , ok|er , hex
+	cancel   context.CancelFunc
+}
+
+func (r *record) addTrans(kind string, b []byte, err error) {
+	r.mu.Lock()
+	defer r.mu.Unlock()
+	if err != nil {
+		r.trans = append(r.trans, kind+":er:"+common.HexS(err.Error()))
+	} else {
+		r.trans = append(r.trans, kind+":ok:"+common.Hex(b))
+	}
+}
+
+// ---------------------------------------------------------------------------------------------
+// test-double marshaler: proto wire format behind a one-byte marker (never empty, not streamable)
+
+type pbMarshaler struct{}
+
+func (pbMarshaler) ContentType() (string, bool) { return mimePB, true }
+
+func (pbMarshaler) Marshal(_ bridgedesc.TypeResolver, msg protoreflect.Message, fd protoreflect.FieldDescriptor) ([]byte, error) {
+	if fd == nil {
+		b, err := proto.MarshalOptions{Deterministic: true}.Marshal(msg.Interface())
+		if err != nil {
+			return nil, err
+		}
+		return append([]byte{'P'}, b...), nil
+	}
+	if fd.Kind() == protoreflect.StringKind && !fd.IsList() {
+		return append([]byte{'F'}, msg.Get(fd).String()...), nil
+	}
+	return nil, errors.New("pb: unsupported field kind")
+}
+
+func (pbMarshaler) Unmarshal(_ bridgedesc.TypeResolver, b []byte, msg protoreflect.Message, fd protoreflect.FieldDescriptor) error {
+	if fd != nil || len(b) == 0 || b[0] != 'P' {
+		return errors.New("pb: malformed body")
+	}
+	return proto.Unmarshal(b[1:], msg.Interface())
+}
+
+// ---------------------------------------------------------------------------------------------
+// wrappers around the REAL transcoder (bind/decode injection points, recording)
+
+type wrapTranscoder struct {
+	real transcoding.HTTPTranscoder
+	sc   *scenario
+	rec  *record
+}
+
+func (t *wrapTranscoder) Bind(req transcoding.HTTPRequest) (transcoding.HTTPRequestTranscoder, transcoding.HTTPResponseTranscoder, error) {
+	if t.sc.inj == "bind" {
+		if t.sc.gone {
+			t.rec.cancel()
+		}
+		t.rec.finalErr = t.sc.err
+		return nil, nil, t.sc.err
+	}
+	in, out, err := t.real.Bind(req)
+	if err != nil {
+		t.rec.finalErr = err
+		return nil, nil, err
+	}
+	win := &wrapReq{real: in, sc: t.sc, rec: t.rec}
+	wout := &wrapResp{real: out, rec: t.rec}
+	if st, ok := out.(transcoding.ResponseStreamTranscoder); ok {
+		return win, &wrapRespStream{wrapResp: wout, st: st}, nil
+	}
+	return win, wout, nil
+}
+
+type wrapReq struct {
+	real transcoding.HTTPRequestTranscoder
+	sc   *scenario
+	rec  *record
+}
+
+func (t *wrapReq) Transcode(b []byte, m proto.Message) error {
+	if t.sc.inj == "decode" {
+		if t.sc.gone {
+			t.rec.cancel()
+		}
+		return t.sc.err
+	}
+	err := t.real.Transcode(b, m)
+	if err != nil {
+		t.rec.mu.Lock()
+		t.rec.natural = err
+		t.rec.mu.Unlock()
+	}
+	return err
+}
+func (t *wrapReq) ContentType() (string, bool) { return t.real.ContentType() }
+
+type wrapResp struct {
+	real transcoding.HTTPResponseTranscoder
+	rec  *record
+}
+
+func (t *wrapResp) Transcode(m proto.Message) ([]byte, error) {
+	b, err := t.real.Transcode(m)
+	kind := "M"
+	if m.ProtoReflect().Descriptor().FullName() == "google.rpc.Status" {
+		kind = "S"
+	}
+	t.rec.addTrans(kind, b, err)
+	return b, err
+}
+func (t *wrapResp) ContentType(m proto.Message) (string, bool) { return t.real.ContentType(m) }
+
+type wrapRespStream struct {
+	*wrapResp
+	st transcoding.ResponseStreamTranscoder
+}
+
+func (t *wrapRespStream) Stream(w io.Writer) transcoding.TranscodedStream { return t.st.Stream(w) }
+
+type recForwarder struct {
+	real grpcadapter.Forwarder
+	rec  *record
+}
+
+func (f *recForwarder) Forward(ctx context.Context, p grpcadapter.ForwardParams) error {
+	err := f.real.Forward(ctx, p)
+	f.rec.finalErr = err
+	return err
+}
+
+// ---------------------------------------------------------------------------------------------
+// fake router and scripted target
+
+type fakeRouter struct {
+	sc   *scenario
+	rec  *record
+	conn *fakeConn
+}
+
+var (
+	resourceInfoMsg = bridgedesc.ConcreteMessage[errdetails.ResourceInfo]()
+	theTarget       = &bridgedesc.Target{Name: "verif-target", TypeResolver: targetTypes}
+	theService      = &bridgedesc.Service{Name: "verif.S"}
+)
+
+func (r *fakeRouter) RouteHTTP(req *http.Request) (grpcadapter.ClientConn, routing.HTTPRoute, error) {
+	if r.sc.inj == "router" {
+		r.rec.finalErr = r.sc.err
+		return nil, routing.HTTPRoute{}, r.sc.err
+	}
+	m := &bridgedesc.Method{
+		RPCName: "/verif.S/M", Input: resourceInfoMsg, Output: resourceInfoMsg,
+		ClientStreaming: r.sc.rpc == "c", ServerStreaming: r.sc.rpc == "s",
+	}
+	return r.conn, routing.HTTPRoute{
+		Target: theTarget, Service: theService, Method: m,
+		Binding: &bridgedesc.Binding{HTTPMethod: "POST", Pattern: "/x", RequestBodyPath: "*", ResponseBodyPath: r.sc.rbp},
+	}, nil
+}
+
+type fakeConn struct {
+	sc  *scenario
+	rec *record
+}
+
+func (c *fakeConn) Close() {}
+func (c *fakeConn) Stream(ctx context.Context, method string) (grpcadapter.ClientStream, error) {
+	if c.sc.inj == "create" {
+		if c.sc.gone {
+			c.rec.cancel()
+		}
+		return nil, c.sc.err
+	}
+	return &fakeStream{sc: c.sc, rec: c.rec}, nil
+}
+
+type fakeStream struct {
+	sc   *scenario
+	rec  *record
+	sent int
+}
+
+func pairsMD(p [][2]string) metadata.MD {
+	md := metadata.MD{}
+	for _, kv := range p {
+		md.Append(kv[0], kv[1])
+	}
+	return md
+}
+
+func (s *fakeStream) Send(context.Context, proto.Message) error { return nil }
+func (s *fakeStream) CloseSend()                                {}
+func (s *fakeStream) Close()                                    {}
+func (s *fakeStream) Header() metadata.MD {
+	if s.sc.inj == "deadline" {
+		return nil
+	}
+	return pairsMD(s.sc.hdr)
+}
+
+func (s *fakeStream) Trailer() metadata.MD {
+	if s.sc.inj == "deadline" {
+		return nil
+	}
+	return pairsMD(s.sc.trl)
+}
+
+func (s *fakeStream) Recv(ctx context.Context, m proto.Message) error {
+	if s.sent < s.sc.n {
+		s.sent++
+		ri := m.(*errdetails.ResourceInfo)
+		ri.ResourceName, ri.Owner = s.sc.ra, s.sc.rb
+		return nil
+	}
+	switch s.sc.inj {
+	case "target":
+		if s.sc.gone {
+			s.rec.cancel()
+		}
+		return s.sc.err
+	case "deadline":
+		<-ctx.Done() // a ctx-aware stream: returns what grpc-go's toRPCErr makes of the expired context
+		return status.FromContextError(ctx.Err()).Err()
+	}
+	return io.EOF
+}
+
+// ---------------------------------------------------------------------------------------------
+// Exec
+
+func hexOrDash(vals []string, present bool) string {
+	if !present {
+		return "-"
+	}
+	h := make([]string, len(vals))
+	for i, v := range vals {
+		h[i] = common.HexS(v)
+	}
+	return strings.Join(h, ",")
+}
+
+func headerMap(h http.Header, skip map[string]bool) string {
+	keys := []string{}
+	for k := range h {
+		if !skip[k] {
+			keys = append(keys, k)
+		}
+	}
+	if len(keys) == 0 {
+		return "-"
+	}
+	sort.Strings(keys)
+	out := []string{}
+	for _, k := range keys {
+		vs := make([]string, len(h[k]))
+		for i, v := range h[k] {
+			vs[i] = common.HexS(v)
+		}
+		out = append(out, common.HexS(k)+":"+strings.Join(vs, "|"))
+	}
+	return strings.Join(out, ",")
+}
+
+func describeErr(err error) string {
+	if err == nil {
+		return "-"
+	}
+	st, hs := webbridgeErrorStatus(err)
+	return fmt.Sprintf("%d:%s:%s:%d", int(st.Code()), common.HexS(st.Message()), lettersOf(statusDetails(st)), hs)
+}
+
+func webbridgeErrorStatus(err error) (*status.Status, int) { return webbridge.VerifErrorStatus(err) }
+
+func statusDetails(st *status.Status) []*anypb.Any { return st.Proto().GetDetails() }
+
+func decodeStatus(ct string, body []byte) string {
+	var st spb.Status
+	switch ct {
+	case mimeJSON:
+		if err := (protojson.UnmarshalOptions{}).Unmarshal(body, &st); err != nil {
+			return "-"
+		}
+	case mimePB:
+		if len(body) == 0 || body[0] != 'P' || proto.Unmarshal(body[1:], &st) != nil {
+			return "-"
+		}
+	default:
+		return "-"
+	}
+	return fmt.Sprintf("%d:%s:%s", st.Code, common.HexS(st.Message), lettersOf(st.Details))
+}
+
+func decodeOneMessage(ct string, b []byte, wholeMessage bool) string {
+	switch ct {
+	case mimeJSON:
+		if wholeMessage {
+			var ri errdetails.ResourceInfo
+			if err := (protojson.UnmarshalOptions{}).Unmarshal(b, &ri); err != nil {
+				return "?"
+			}
+			return "m:" + common.HexS(ri.ResourceName) + ":" + common.HexS(ri.Owner)
+		}
+		var s string
+		if err := json.Unmarshal(b, &s); err != nil {
+			return "?"
+		}
+		return "s:" + common.HexS(s)
+	case mimePB:
+		if len(b) > 0 && b[0] == 'P' && wholeMessage {
+			var ri errdetails.ResourceInfo
+			if proto.Unmarshal(b[1:], &ri) != nil {
+				return "?"
+			}
+			return "m:" + common.HexS(ri.ResourceName) + ":" + common.HexS(ri.Owner)
+		}
+		if len(b) > 0 && b[0] == 'F' && !wholeMessage {
+			return "s:" + common.Hex(b[1:])
+		}
+	}
+	return "?"
+}
+
+// decodeMessages reads the success body the way a client of this API would: one value for a unary
+// call, newline-delimited values for a JSON stream, "data:" records for SSE.
+func decodeMessages(sc *scenario, ct string, body []byte, sse bool) string {
+	whole := sc.rbp == ""
+	if sc.rpc != "s" {
+		return decodeOneMessage(ct, body, whole)
+	}
+	var items []string
+	if sse {
+		recs := strings.Split(string(body), "\n\n")
+		if recs[len(recs)-1] != "" {
+			return "?"
+		}
+		for _, r := range recs[:len(recs)-1] {
+			if !strings.HasPrefix(r, "data:") {
+				return "?"
+			}
+			items = append(items, decodeOneMessage(ct, []byte(r[len("data:"):]), whole))
+		}
+	} else {
+		lines := strings.Split(string(body), "\n")
+		if lines[len(lines)-1] != "" {
+			return "?"
+		}
+		for _, l := range lines[:len(lines)-1] {
+			items = append(items, decodeOneMessage(ct, []byte(l), whole))
+		}
+	}
+	if len(items) == 0 {
+		return "-"
+	}
+	framing := "nl|" // newline-delimited values
+	if sse {
+		framing = "sse|" // "data:" records
+	}
+	return framing + strings.Join(items, ";")
+}
+
+func (Area) Exec(input string) string {
+	f := strings.Fields(input)
+	switch f[0] {
+	case "tbl":
+		c, _ := strconv.Atoi(f[1])
+		return strconv.Itoa(gwruntime.HTTPStatusFromCode(codes.Code(c)))
+	case "cvt":
+		err := parseErr(f[1])
+		st, hs := webbridge.VerifErrorStatus(err)
+		return fmt.Sprintf("%d %s %s %d", int(st.Code()), common.HexS(st.Message()), lettersOf(statusDetails(st)), hs)
+	case "e2e":
+		return execE2E(parseScenario(f))
+	}
+	return "BADOP"
+}
+
+func execE2E(sc *scenario) string {
+	rec := &record{}
+	conn := &fakeConn{sc: sc, rec: rec}
+	router := &fakeRouter{sc: sc, rec: rec, conn: conn}
+	realTc := transcoding.NewStandardTranscoder(transcoding.StandardTranscoderOpts{
+		Marshalers: []transcoding.Marshaler{transcoding.DefaultJSONMarshaler, pbMarshaler{}},
+	})
+	fwd := grpcadapter.NewProxyForwarder(grpcadapter.ProxyForwarderOpts{
+		Filter: grpcadapter.NewProxyMDFilter(grpcadapter.ProxyMDFilterOpts{
+			AllowResponseMD: sc.allH, PrefixResponseMD: sc.prefH,
+			AllowTrailerMD: sc.allT, PrefixTrailerMD: sc.prefT,
+		}),
+	})
+	bridge := webbridge.NewTranscodedHTTPBridge(router, webbridge.TranscodedHTTPBridgeOpts{
+		Transcoder: &wrapTranscoder{real: realTc, sc: sc, rec: rec},
+		Forwarder:  &recForwarder{real: fwd, rec: rec},
+	})
+
+	req := httptest.NewRequest("POST", "/x", strings.NewReader(string(sc.body)))
+	for _, v := range sc.ct {
+		req.Header.Add("Content-Type", v)
+	}
+	for _, v := range sc.acc {
+		req.Header.Add("Accept", v)
+	}
+	if sc.tmo != "-" {
+		req.Header.Set("Grpc-Timeout", sc.tmo)
+	}
+	ctx, cancel := context.WithCancel(req.Context())
+	defer cancel()
+	rec.cancel = cancel
+	req = req.WithContext(ctx)
+	if sc.gone && sc.inj == "router" {
+		cancel()
+	}
+
+	var res *http.Response
+	var body []byte
+	if sc.srv && !sc.gone {
+		// the same request over TCP through net/http's server and client (no client-side cancellation here)
+		srv := httptest.NewServer(bridge)
+		defer srv.Close()
+		creq, err := http.NewRequest("POST", srv.URL+"/x", strings.NewReader(string(sc.body)))
+		if err != nil {
+			return "SRVERR " + common.HexS(err.Error())
+		}
+		creq.Header = req.Header.Clone()
+		creq.Header["Accept-Encoding"] = []string{"identity"}
+		cres, err := srv.Client().Do(creq)
+		if err != nil {
+			return "SRVERR " + common.HexS(err.Error())
+		}
+		body, _ = io.ReadAll(cres.Body)
+		cres.Body.Close()
+		res = cres
+		for _, k := range []string{"Date", "Content-Length"} {
+			res.Header.Del(k)
+		}
+	} else {
+		w := httptest.NewRecorder()
+		bridge.ServeHTTP(w, req)
+		res = w.Result()
+		body, _ = io.ReadAll(res.Body)
+	}
+	ctVals, ctPresent := res.Header["Content-Type"]
+	xcto, xctoPresent := res.Header["X-Content-Type-Options"]
+	ct := ""
+	if len(ctVals) == 1 {
+		ct = ctVals[0]
+	}
+	// post-library input: mime.ParseMediaType of every Content-Type request header line
+	pm := "-"
+	if len(sc.ct) > 0 {
+		ps := make([]string, len(sc.ct))
+		for i, v := range sc.ct {
+			if mt, _, err := mime.ParseMediaType(v); err == nil {
+				ps[i] = common.HexS(mt)
+			} else {
+				ps[i] = "!"
+			}
+		}
+		pm = strings.Join(ps, ",")
+	}
+	sse := strings.HasPrefix(string(body), "data:") // framing as observed (a JSON value never starts like this)
+	ds := decodeStatus(ct, body)
+	dm := "-"
+	if res.StatusCode == 200 && (ct == mimeJSON || ct == mimePB) {
+		dm = decodeMessages(sc, ct, body, sse)
+	}
+	rec.mu.Lock()
+	nat := "-"
+	if rec.natural != nil {
+		st := status.Convert(rec.natural)
+		direct := 0
+		if _, ok := rec.natural.(interface{ GRPCStatus() *status.Status }); ok {
+			direct = 1
+		}
+		nat = fmt.Sprintf("%d:%d:%s", direct, int(st.Code()), common.HexS(st.Message()))
+	}
+	tr := "-"
+	if len(rec.trans) > 0 {
+		tr = strings.Join(rec.trans, ",")
+	}
+	rec.mu.Unlock()
+
+	skip := map[string]bool{"Content-Type": true, "X-Content-Type-Options": true}
+	return fmt.Sprintf("st=%d ct=%s xcto=%s body=%s ds=%s dm=%s hdr=%s trl=%s pm=%s fe=%s nat=%s tr=%s u8=%s",
+		res.StatusCode, hexOrDash(ctVals, ctPresent), hexOrDash(xcto, xctoPresent), common.Hex(body), ds, dm,
+		headerMap(res.Header, skip), headerMap(res.Trailer, nil), pm, describeErr(rec.finalErr), nat, tr, utf8Flag(rec.finalErr))
+}
+
+// utf8Flag reports whether the final error's message is valid UTF-8 (post-library: unicode/utf8),
+// the condition under which protobuf can carry it in a string field at all.
+func utf8Flag(err error) string {
+	if err == nil {
+		return "-"
+	}
+	if utf8.ValidString(status.Convert(err).Message()) {
+		return "1"
+	}
+	return "0"
+}
+
+// ---------------------------------------------------------------------------------------------
+// Gen
+
+var genStats = map[string]int{}
+
+func (Area) Extra() map[string]any {
+	out := map[string]any{}
+	for k, v := range genStats {
+		out[k] = v
+	}
+	return out
+}
+
+type ctCase struct {
+	name string
+	ct   []string
+	acc  []string
+}
+
+// Content-Type / Accept combinations of the exhaustive part.
+var ctCases = []ctCase{
+	{"absent", nil, nil},
+	{"json", []string{"application/json"}, nil},
+	{"json+charset", []string{"application/json; charset=utf-8"}, []string{"application/json; charset=utf-8"}},
+	{"unknown", []string{"img/png"}, nil},
+	{"multiple", []string{"img/png", "APPLICATION/JSON;q=1", "text/plain"}, []string{"text/plain", "application/json"}},
+	{"sse", []string{"application/json"}, []string{"text/event-stream"}},
+	{"pb-in-json-out", []string{mimePB}, []string{mimeJSON}},
+	{"json-in-pb-out", nil, []string{"*/*", mimePB}},
+	{"malformed-ct", []string{"application/json; charset"}, nil},
+	{"accept-one-line", []string{"application/json"}, []string{"application/x-test-pb, application/json"}},
+}
+
+var (
+	injOrigins   = []string{"router", "bind", "decode", "create", "target"}
+	detailCombos = []string{"-", "r", "u", "m", "rq", "ru", "e", "b"}
+)
+
+func hexListOut(xs []string) string {
+	if len(xs) == 0 {
+		return "-"
+	}
+	h := make([]string, len(xs))
+	for i, x := range xs {
+		h[i] = common.HexS(x)
+	}
+	return strings.Join(h, ",")
+}
+
+func hexPairsOut(p [][2]string) string {
+	if len(p) == 0 {
+		return "-"
+	}
+	h := make([]string, len(p))
+	for i, kv := range p {
+		h[i] = common.HexS(kv[0]) + ":" + common.HexS(kv[1])
+	}
+	return strings.Join(h, ",")
+}
+
+type mdSpec struct {
+	hdr, trl     [][2]string
+	allH, allT   []string
+	prefH, prefT string
+}
+
+func (m mdSpec) String() string {
+	return strings.Join([]string{hexPairsOut(m.hdr), hexPairsOut(m.trl), hexListOut(m.allH), hexListOut(m.allT), common.HexS(m.prefH), common.HexS(m.prefT)}, "/")
+}
+
+var noMD = mdSpec{}
+
+var stdMD = mdSpec{
+	hdr:  [][2]string{{"x-req-id", "abc"}, {"x-secret", "s3cr3t"}, {"x-multi", "1"}, {"x-multi", "2"}},
+	trl:  [][2]string{{"x-cost", "42"}, {"x-internal", "no"}, {"x-req-id", "from-trailer"}},
+	allH: []string{"X-Req-Id", "x-multi", "x-absent"},
+	allT: []string{"x-cost", "x-req-id"},
+	prefH: "", prefT: "Grpc-Trailer-",
+}
+
+type line struct {
+	rpc, inj, err string
+	gone          bool
+	ct, acc       []string
+	body          string
+	rbp           string
+	tmo           string
+	n             int
+	ra, rb        string
+	md            mdSpec
+}
+
+func (l line) String() string {
+	g := "0"
+	if l.gone {
+		g = "1"
+	}
+	e := l.err
+	if e == "" {
+		e = "-"
+	}
+	t := l.tmo
+	if t == "" {
+		t = "-"
+	}
+	return fmt.Sprintf("e2e rpc=%s inj=%s err=%s gone=%s ct=%s acc=%s body=%s rbp=%s tmo=%s n=%d resp=%s/%s md=%s",
+		l.rpc, l.inj, e, g, hexListOut(l.ct), hexListOut(l.acc), common.HexS(l.body), common.HexS(l.rbp), t, l.n,
+		common.HexS(l.ra), common.HexS(l.rb), l.md.String())
+}
+
+func sErr(code int, msg, letters string) string {
+	return fmt.Sprintf("S:%d:%s:%s", code, common.HexS(msg), letters)
+}
+
+var interestingMsgs = []string{
+	"", "not found", "quote \" backslash \\ <tag> & amp", "line1\nline2\ttab", "ünïcödé ✓ 日本語", "bad utf8 \xff\xfe here",
+	"percent %s %d %!", "\x00nul", strings.Repeat("long ", 200), "trailing newline\n", "{\"code\":0}",
+}
+
+func randMsg(r *rand.Rand) string {
+	switch r.Intn(6) {
+	case 0:
+		return common.Pick(r, interestingMsgs)
+	case 1:
+		return string(common.RandBytes(r, r.Intn(24), nil)) // arbitrary bytes, mostly invalid UTF-8
+	case 2:
+		rs := []rune("aé✓日\U0001F600\"\\\n/<>&  ")
+		n := r.Intn(16)
+		var sb strings.Builder
+		for i := 0; i < n; i++ {
+			sb.WriteRune(rs[r.Intn(len(rs))])
+		}
+		return sb.String()
+	default:
+		return string(common.RandBytes(r, r.Intn(40), []byte("abcdefghijklmnopqrstuvwxyz ABC0123456789.:,-_/")))
+	}
+}
+
+func randDetails(r *rand.Rand) string {
+	switch r.Intn(4) {
+	case 0:
+		return "-"
+	case 1:
+		return common.Pick(r, detailCombos)
+	default:
+		n := 1 + r.Intn(3)
+		b := make([]byte, n)
+		for i := range b {
+			b[i] = detailLetters[r.Intn(len(detailLetters))]
+		}
+		return string(b)
+	}
+}
+
+func randErr(r *rand.Rand) string {
+	code := r.Intn(17)
+	if r.Intn(20) == 0 {
+		code = 17 + r.Intn(4)
+	}
+	base := ""
+	switch r.Intn(6) {
+	case 0:
+		base = "P:" + common.HexS(randMsg(r))
+	case 1:
+		base = fmt.Sprintf("B%d:%d:%s:%s", common.Pick(r, explicitCodes), code, common.HexS(randMsg(r)), randDetails(r))
+	default:
+		base = sErr(code, randMsg(r), randDetails(r))
+	}
+	for r.Intn(4) == 0 {
+		if r.Intn(2) == 0 {
+			base = fmt.Sprintf("H%d/%s", common.Pick(r, explicitCodes), base)
+		} else {
+			base = "W" + common.HexS(common.Pick(r, []string{"ctx", "routing failed", ""})) + "/" + base
+		}
+	}
+	return base
+}
+
+var explicitCodes = []int{200, 400, 405, 413, 415, 418, 429, 451, 499, 500, 503, 599}
+
+func (Area) Gen(r *rand.Rand, tier string, emit func(string)) {
+	count := func(k string) { genStats[k]++ }
+	// 1. the executed table of the third-party runtime.HTTPStatusFromCode
+	for c := 0; c <= 20; c++ {
+		emit(fmt.Sprintf("tbl %d", c))
+		count("tbl")
+	}
+
+	// 2. errorStatus on constructed error values (all 17 codes x kinds, then random nests)
+	for c := 0; c <= 16; c++ {
+		for _, e := range []string{
+			sErr(c, "m", "-"), sErr(c, "with details", "ru"),
+			"H415/" + sErr(c, "wrapped", "r"), "W" + common.HexS("ctx") + "/" + sErr(c, "fmt-wrapped", "-"),
+			fmt.Sprintf("B418:%d:%s:-", c, common.HexS("both")), "W" + common.HexS("outer") + "/H404/" + sErr(c, "hidden explicit", "-"),
+		} {
+			emit("cvt " + e)
+			count("cvt")
+		}
+	}
+	emit("cvt P:" + common.HexS("plain error"))
+	emit("cvt H503/P:" + common.HexS("plain under explicit"))
+	ncvt := 400
+	if tier == "thorough" {
+		ncvt = 20000
+	}
+	for i := 0; i < ncvt; i++ {
+		emit("cvt " + randErr(r))
+		count("cvt")
+	}
+
+	// 3. EXHAUSTIVE finite enumeration: 17 codes x injected origins x detail payloads x Content-Type/Accept combos
+	//    (unary; status errors), every run.
+	for _, cc := range ctCases {
+		for _, origin := range injOrigins {
+			for code := 0; code <= 16; code++ {
+				for _, det := range detailCombos {
+					l := line{rpc: "u", inj: origin, err: sErr(code, fmt.Sprintf("E%d at %s", code, origin), det), ct: cc.ct, acc: cc.acc, n: 0, ra: "name", rb: "owner"}
+					if origin == "target" {
+						l.md = stdMD
+					}
+					emit(l.String())
+					count("e2e.exhaustive")
+				}
+			}
+		}
+		// the same through a real net/http server for one code per origin and detail payload
+		for _, origin := range injOrigins {
+			for _, det := range detailCombos {
+				l := line{rpc: "U", inj: origin, err: sErr(5, "over tcp", det), ct: cc.ct, acc: cc.acc, ra: "name", rb: "owner"}
+				if origin == "target" {
+					l.md = stdMD
+				}
+				emit(l.String())
+				count("e2e.server")
+			}
+		}
+		emit(line{rpc: "U", inj: "none", ct: cc.ct, acc: cc.acc, n: 1, ra: "tcp", rb: "ok", rbp: "owner", md: stdMD}.String())
+		emit(line{rpc: "S", inj: "none", ct: cc.ct, acc: cc.acc, n: 2, ra: "tcp", rb: "ok", md: stdMD}.String())
+		emit(line{rpc: "S", inj: "target", err: sErr(13, "late", "-"), ct: cc.ct, acc: cc.acc, n: 1, ra: "tcp", rb: "ok", md: stdMD}.String())
+		emit(line{rpc: "U", inj: "deadline", ct: cc.ct, acc: cc.acc, tmo: "1m"}.String())
+		// deadline origin (real grpc-timeout expiry against a target that never answers), success, natural failures
+		for _, tmo := range []string{"1n", "1m"} {
+			emit(line{rpc: "u", inj: "deadline", ct: cc.ct, acc: cc.acc, tmo: tmo, ra: "a", rb: "b"}.String())
+			count("e2e.deadline")
+		}
+		for _, rbp := range []string{"", "resource_name", "owner", "nope"} {
+			emit(line{rpc: "u", inj: "none", ct: cc.ct, acc: cc.acc, n: 1, ra: "the name", rb: "the \"owner\"", rbp: rbp, md: stdMD}.String())
+			count("e2e.success")
+		}
+		emit(line{rpc: "u", inj: "none", ct: cc.ct, acc: cc.acc, n: 0, md: stdMD}.String())                        // EOF without a response
+		emit(line{rpc: "u", inj: "none", ct: cc.ct, acc: cc.acc, n: 2, ra: "first", rb: "x", md: stdMD}.String())  // misbehaving target: two responses
+		emit(line{rpc: "u", inj: "none", ct: cc.ct, acc: cc.acc, n: 1, body: "bad{"}.String())                    // malformed body
+		emit(line{rpc: "u", inj: "none", ct: cc.ct, acc: cc.acc, n: 1, body: "{\"owner\":1}"}.String())           // type mismatch in body
+		emit(line{rpc: "u", inj: "none", ct: cc.ct, acc: cc.acc, n: 1, body: "{\"owner\":\"me\"}", ra: "r"}.String())
+		emit(line{rpc: "c", inj: "none", ct: cc.ct, acc: cc.acc, n: 1}.String()) // client streaming: Unimplemented
+		for n := 0; n <= 2; n++ {
+			emit(line{rpc: "s", inj: "none", ct: cc.ct, acc: cc.acc, n: n, ra: "sn", rb: "so", md: stdMD}.String())
+			emit(line{rpc: "s", inj: "target", err: sErr(14, "stream broke", "u"), ct: cc.ct, acc: cc.acc, n: n, ra: "sn", rb: "so", md: stdMD}.String())
+			count("e2e.stream")
+		}
+		// client gone: 499 without a body, whatever the error is
+		for _, origin := range injOrigins {
+			emit(line{rpc: "u", inj: origin, err: sErr(5, "gone", "u"), gone: true, ct: cc.ct, acc: cc.acc}.String())
+			count("e2e.gone")
+		}
+		// explicit HTTPStatus() carriers and plain errors at every origin
+		for _, origin := range injOrigins {
+			for _, e := range []string{
+				"H415/" + sErr(3, "Unsupported Media Type", "-"), "H405/" + sErr(12, "Method Not Allowed", "-"),
+				"P:" + common.HexS("plain failure"), "H503/P:" + common.HexS("plain under explicit"),
+				fmt.Sprintf("B429:8:%s:ru", common.HexS("both kinds")), "W" + common.HexS("ctx") + "/" + sErr(7, "wrapped denied", "r"),
+				sErr(17, "out of range code", "-"),
+			} {
+				emit(line{rpc: "u", inj: origin, err: e, ct: cc.ct, acc: cc.acc}.String())
+				count("e2e.kinds")
+			}
+		}
+	}
+
+	// 4. seeded random scenarios: random messages (incl. invalid UTF-8), details, nests, headers
+	n := 1500
+	if tier == "thorough" {
+		n = 200000
+	}
+	for i := 0; i < n; i++ {
+		cc := common.Pick(r, ctCases)
+		l := line{rpc: "u", ct: cc.ct, acc: cc.acc, ra: randMsg(r), rb: randMsg(r), n: 1}
+		if !utf8.ValidString(l.ra) || !utf8.ValidString(l.rb) {
+			l.ra, l.rb = "valid", "strings"
+		}
+		if r.Intn(5) == 0 { // random header lines
+			l.ct = randHeaderLines(r)
+			l.acc = randHeaderLines(r)
+		}
+		switch k := r.Intn(20); {
+		case k < 13:
+			l.inj = common.Pick(r, injOrigins)
+			l.err = randErr(r)
+			l.n = r.Intn(2)
+			l.gone = r.Intn(25) == 0
+		case k < 14:
+			l.inj = "deadline"
+			l.tmo = common.Pick(r, []string{"1n", "1u", "1m"})
+		case k < 17:
+			l.inj = "none"
+			l.rbp = common.Pick(r, []string{"", "", "resource_name", "owner", "description", "nope", "owner.x"})
+			l.n = common.Pick(r, []int{0, 1, 1, 1, 2})
+			l.body = common.Pick(r, []string{"", "", "{}", "bad", "[]", "{\"owner\":\"x\"}", "\xff", "P", "P\xff"})
+		default:
+			l.rpc = "s"
+			l.n = r.Intn(4)
+			if r.Intn(2) == 0 {
+				l.inj = "target"
+				l.err = randErr(r)
+			} else {
+				l.inj = "none"
+			}
+			l.rbp = common.Pick(r, []string{"", "", "owner"})
+		}
+		if l.inj == "target" || l.inj == "none" {
+			if r.Intn(2) == 0 {
+				l.md = stdMD
+			} else {
+				l.md = randMD(r)
+			}
+		}
+		emit(l.String())
+		count("e2e.random." + l.inj)
+	}
+}
+
+func randHeaderLines(r *rand.Rand) []string {
+	n := r.Intn(4)
+	var out []string
+	for i := 0; i < n; i++ {
+		out = append(out, common.Pick(r, []string{
+			"application/json", "application/json; charset=utf-8", "APPLICATION/JSON", " application/json", "application/json;",
+			mimePB, mimePB + "; v=1", "text/event-stream", "text/plain", "img/png", "*/*", "", "application/json, " + mimePB, ";;;", "a/b/c",
+		}))
+	}
+	return out
+}
+
+func randMD(r *rand.Rand) mdSpec {
+	keys := []string{"x-a", "x-b", "x-c", "etag", "x-long-header-name"}
+	m := mdSpec{prefH: common.Pick(r, []string{"", "Grpc-Metadata-"}), prefT: common.Pick(r, []string{"", "Grpc-Trailer-"})}
+	for i := r.Intn(5); i > 0; i-- {
+		m.hdr = append(m.hdr, [2]string{common.Pick(r, keys), string(common.RandBytes(r, 1+r.Intn(6), []byte("abc123 ;=")))})
+	}
+	for i := r.Intn(5); i > 0; i-- {
+		m.trl = append(m.trl, [2]string{common.Pick(r, keys), string(common.RandBytes(r, 1+r.Intn(6), []byte("abc123 ;=")))})
+	}
+	for _, k := range keys {
+		if r.Intn(2) == 0 {
+			if r.Intn(3) == 0 {
+				k = strings.ToUpper(k[:1]) + k[1:]
+			}
+			m.allH = append(m.allH, k)
+		}
+		if r.Intn(2) == 0 {
+			m.allT = append(m.allT, k)
+		}
+	}
+	return m
+}
